@@ -33,4 +33,4 @@ def run(res, only=None):
 
 
 def replay(res, path, only=None):
-    return core.generic_replay(res, path, "ser", env_keys=())
+    return core.replay_dispatch(res, path, "ser", env_keys=())
